@@ -432,6 +432,11 @@ func C17(c *core.Ctx) {
 			chk := func(field string, okLeaf func(core.Leaf) bool, what string) {
 				al, isA := core.Strip(route).(*ssa.Alloc)
 				if !isA {
+					// the insertion may sit in a worker split off register: its route
+					// parameter is the literal of the only call site
+					al, isA = core.Resolve(route).(*ssa.Alloc)
+				}
+				if !isA {
 					c.Und("R17.2", "register-default:"+field, c.Pos(ci), "route is not a local literal")
 					return
 				}
